@@ -25,7 +25,8 @@ Failed(line) ==
    (IF line.verdict \in {"panic", "crash", "hang"} \/ line.dec.err \in {"panic", "crash", "hang"} THEN {"no_panic"} ELSE {})
    \cup
    (CASE c.presence = "present" ->
-           (IF ~(line.dec.err = "ok" /\ line.dec.found /\ "val" \in DOMAIN line.dec /\ Eq(line.dec.val, c.v))
+           \* (a property the schema gives no type to has no determined decoded value: ParamCodec!Typed)
+           (IF Typed(c.schema, c.v) /\ ~(line.dec.err = "ok" /\ line.dec.found /\ "val" \in DOMAIN line.dec /\ Eq(line.dec.val, c.v))
             THEN {"decoded_is_inverse_of_wire"} ELSE {})
            \cup (IF Valid(c.schema, c.v, "plain")
                  THEN (IF line.verdict # "ok" THEN {"valid_value_accepted"} ELSE {})
